@@ -3,35 +3,65 @@ C01 -- library round trip (.mlib / .clib): what is stored is what is read back.
 
 Monitor shape: round-trip oracle.  Every generated Molecule / ConformerEnsemble is written
 into a real MoleculeLibrary / ConformerLibrary inside a writing() session and read back through
-(a) the same handle, (b) a freshly constructed read-only library object and (c, thorough) a fresh
-process; deep snapshots are compared field by field.
+(a) lib.items() and lib[key] of the same handle, (b) a freshly constructed read-only library object,
+(c) a second library that received what was read back (record-by-record copy), (d) a fresh process;
+deep snapshots are compared field by field.  Source objects are also modified and stored again under
+new keys, libraries of the other format version are used before / alternately, and library files are
+re-created in the other format under the same path.
 """
 from __future__ import annotations
 
+import os
 import pickle
 import subprocess
 import sys
 
 ID = "C01"
 LEVEL = "exploration"
-RULE = ("seeded random molecules (0..40 atoms, all 119 elements, every enum member, None/empty/unicode labels, "
-        "isotopes, nested msgpack-able attribs incl. numpy arrays, NaN/inf/1e30/-0.0 coordinates, 0..dense bonds) and "
-        "ensembles (0..6 conformers, 4 constructor routes) written to v2 and legacy v1 libraries with buffer sizes "
-        "{-1,0,4096,1e6}; non-trivial = at least one atom and one non-default field; distinct by snapshot hash")
+RULE = ("seeded random molecules (0..40 atoms, all 119 elements, every enum member, None/empty/unicode/white-space labels "
+        "and names, isotopes, nested msgpack-able attribs incl. numpy arrays, NaN/inf/1e30/-0.0 coordinates, partial charges "
+        "and weights, real-valued fractional bond orders, 0..dense bonds, a few objects with >= 64 KiB numeric / attribute "
+        "blocks) and ensembles (0..6 conformers, 4 constructor routes) written to v2 and legacy v1 libraries with buffer "
+        "sizes {-1,0,4096,1e6} under plain / white-space / empty keys; objects are stored once, or modified and stored "
+        "again (same session, later session, second library); what is read back is stored into a second library and read "
+        "again; non-trivial = at least one atom and one non-default field; distinct by snapshot hash")
 ASSUMPTIONS = [
     "floats (coordinates, partial charges, weights, f_order, float attributes) are compared at single-float precision "
     "(|a-b| <= 1.2e-7*max(|a|,|b|) + 1e-38, NaN=NaN, inf=inf) because the format stores single floats",
     "msgpack has one sequence type: list and tuple inside attribs compare as sequences; enum members compare by value",
     "v1 comparison is restricted to the v1 schema (no formal charge/spin, no attribs)",
+    "'nothing else about the object changes' covers the element type and writability of the coordinate / charge / weight "
+    "arrays: a read-back object can be edited like the stored one",
+    "storing under a key that already exists is refused by the storage layer and is not part of the workload",
 ]
 REQUIRED = {"roundtrip.v2.mol": 50, "roundtrip.v2.ens": 20, "roundtrip.v1.mol": 10, "roundtrip.v1.ens": 10,
             "read.fresh-handle": 50, "source-unchanged": 50, "read.again-after-editing-previous-result": 50,
-            "source.atoms-lent-to-another-structure": 20, "source.large-text-attribute": 10, "library.created-over-a-legacy-file": 3, "library.other-format-version-used-earlier-in-process": 3, "read.failed-decode-before-good-reads": 5}
+            "source.atoms-lent-to-another-structure": 20, "source.large-text-attribute": 10,
+            "library.created-over-a-legacy-file": 3, "library.other-format-version-used-earlier-in-process": 3,
+            "read.failed-decode-before-good-reads": 5,
+            # --- added after the gap review
+            "source.stored-again-after-modification": 200, "source.stored-again-in-second-library": 100,
+            "source.special-partial-charges": 100, "source.special-conformer-weights": 20,
+            "source.real-valued-fractional-bond-order": 300, "source.text-with-outer-white-space": 150,
+            "source.multiplicity-outside-1-3": 30, "key.leading-or-trailing-white-space": 150, "key.empty": 10,
+            "source.large-numeric-block.mol": 4, "source.large-numeric-block.ens": 2, "source.large-attribute-block": 20,
+            "read.items": 500, "read.values": 500, "read.second-hop": 500, "read.conversion-hop": 20,
+            "read.array-kind-compared": 500,
+            "library.other-format-version-constructed-later-used-alternately": 3,
+            "library.path-re-created-in-other-format.v1-to-v2": 2, "library.path-re-created-in-other-format.v2-to-v1": 2,
+            "library.old-handle-used-after-re-creation": 4, "read.fresh-process": 20}
 CHUNK_TIMEOUT = 900
+
+# Mechanisms that are silenced inside the module: none.  What the unchanged library is known to get wrong is listed in
+# /verif/known_findings.json (status "open") and reported by the runner as KNOWN-FINDING lines.
+KNOWN_ON_UNCHANGED_TREE = set()
 
 RTOL, ATOL = 1.2e-7, 1e-38
 V1_ATOM = ("element", "isotope", "label", "atype", "stereo", "geom")
 V1_BOND = ("a1", "a2", "label", "btype", "stereo", "f_order")
+WS_TEXT = [" lead", "trail ", " both ", "tab\t", "\tlead-tab", "line\n", "\nline", " ", "\n", "", "in  ner",
+           " nbsp ", "cr\r\n", "  two  "]
+GARBAGE = "~garbage~"
 
 
 def plan(tier, seed):
@@ -42,7 +72,16 @@ def plan(tier, seed):
         specs.append({"chunk": i, "n": per, "kind": "mol" if i % 3 != 2 else "ens",
                       "version": 2 if i % 4 != 3 else 1,
                       "bufsize": [-1, 0, 4096, 10**6][(i // 2) % 4],
-                      "fresh_process": tier == "thorough" and i % 8 == 0})
+                      "fresh_process": (tier == "thorough" and i % 8 == 0) or i % 10 == 1})
+    # self-contained scenario: a library file is used, then created anew in the other format under the same path
+    reps = 2 if tier == "quick" else 8
+    k = 0
+    for rep in range(reps):
+        for kind in ("mol", "ens"):
+            for direction in ("v1-to-v2", "v2-to-v1"):
+                specs.append({"chunk": 10000 + k, "scenario": "re-created-path", "kind": kind, "direction": direction,
+                              "bufsize": [-1, 0, 4096, 10**6][k % 4]})
+                k += 1
     return specs
 
 
@@ -71,65 +110,341 @@ def make_v1_file(path):
         pass
 
 
+def selected(ctx, case):
+    """replay filter: a replayed case (chunk, j, ...) / (chunk, "scenario") selects everything derived from (chunk, j)"""
+    if ctx.only is None:
+        return True
+    o = list(ctx.only)
+    return len(o) >= 2 and len(case) >= 2 and o[1] == case[1]
+
+
+# ------------------------------------------------------------------------------------------------------------------
+# oracle helpers (shared by the main workload and the scenarios)
+
+class Oracle:
+    def __init__(self, ctx, kind):
+        import numpy as np
+        from vmon import snap as S
+
+        self.ctx, self.kind, self.np, self.S = ctx, kind, np, S
+
+    def report(self, vkey, /, **kw):
+        if vkey in KNOWN_ON_UNCHANGED_TREE:
+            self.ctx.count("known-on-unchanged-tree:" + vkey)
+            return
+        self.ctx.violation(vkey, **kw)
+
+    def compare(self, sx, sy, version, tag, case=None, route=None):
+        """differences between what was stored and what was read, restricted to the schema of the format"""
+        a, b = (restrict_v1(sx), restrict_v1(sy)) if version == 1 else (sx, sy)
+        d = self.S.diff(a, b, rtol=RTOL, atol=ATOL)
+        keep = []
+        for e in d:
+            if e[0] == ".mult" and e[1] == 0 and e[2] == 1:
+                self.report(f"roundtrip-differs:{tag}:mult:zero-replaced-by-default", case=case, route=route, diff=[e])
+            else:
+                keep.append(e)
+        return keep
+
+    def kinds(self, x):
+        """element type and writability of the numeric arrays of an object"""
+        out = {}
+        for f in ("coords", "atomic_charges", "weights"):
+            v = getattr(x, f, None)
+            if isinstance(v, self.np.ndarray):
+                out[f] = (v.dtype.str, bool(v.flags.writeable))
+        return out
+
+    def kinds_check(self, k0, y, tag, case, route):
+        k1 = self.kinds(y)
+        self.ctx.count("read.array-kind-compared")
+        for f, (dt, wr) in k0.items():
+            if f not in k1:
+                continue
+            if k1[f][0] != dt:
+                self.report(f"readback-array-kind-differs:{tag}:{f}:element-type", case=case, route=route,
+                            stored=dt, read=k1[f][0])
+            if k1[f][1] != wr:
+                self.report(f"readback-array-kind-differs:{tag}:{f}:writability", case=case, route=route,
+                            stored=wr, read=k1[f][1])
+
+    def edit(self, y):
+        """edit every part of an object in place (what any user of a read-back object may do)"""
+        y.name = "edited-after-read"
+        y.charge = (y.charge or 0) + 7
+        y.attrib["edited"] = True
+        if y.n_atoms:
+            y.atoms[0].label = "EDITED"
+            y.atoms[-1].formal_charge = 9
+            y.coords[...] = 12345.0
+            y.atomic_charges[...] = -9.0
+        if self.kind == "ens" and y.n_conformers:
+            y.weights[...] = 77.0
+
+    def match_values(self, expected, values, version, tag, route):
+        """values() carries no keys: the objects it yields must be, as a multiset, the objects stored"""
+        S = self.S
+        pool = {}
+        for key, sx in expected.items():
+            pool.setdefault((len(sx["atoms"]), len(sx.get("bonds", []))), []).append([key, sx, False])
+        unmatched = 0
+        n = 0
+        for y in values:
+            n += 1
+            self.ctx.count("read.values")
+            sy = S.snap(y)
+            hit = False
+            for ent in pool.get((len(sy["atoms"]), len(sy.get("bonds", []))), []):
+                if ent[2]:
+                    continue
+                a, b = (restrict_v1(ent[1]), restrict_v1(sy)) if version == 1 else (ent[1], sy)
+                d = S.diff(a, b, rtol=RTOL, atol=ATOL, limit=2)
+                if d and all(e[0] == ".mult" and e[1] == 0 and e[2] == 1 for e in d):
+                    # that one mechanism has its own key; the object is otherwise the stored one
+                    self.report(f"roundtrip-differs:{tag}:mult:zero-replaced-by-default", route=route, diff=d)
+                    d = []
+                if not d:
+                    ent[2] = hit = True
+                    break
+            if not hit:
+                unmatched += 1
+                if unmatched <= 2:
+                    self.report(f"values-yields-object-that-was-not-stored:{tag}", route=route, obj=S.brief(y))
+        if n != len(expected):
+            self.report(f"values-count-differs:{tag}", route=route, stored=len(expected), yielded=n)
+
+
+def fresh_process_snaps(libname, path, out):
+    """snapshots of everything a fresh interpreter reads from the library file (or the repr of the error per key)"""
+    code = (
+        "import sys,pickle; sys.path[:0]=%r; import molli as ml; from vmon.snap import snap\n"
+        "lib = ml.%s(%r, readonly=True)\n"
+        "res = {}\n"
+        "with lib.reading():\n"
+        "    for k in lib.keys():\n"
+        "        try:\n"
+        "            y = lib[k]; res[k] = snap(y, parents=y.n_atoms <= 200)\n"
+        "        except Exception as e: res[k] = repr(e)\n"
+        "pickle.dump(res, open(%r,'wb'))\n" % (sys.path[:3], libname, str(path), str(out)))
+    subprocess.run([sys.executable, "-c", code], timeout=300, check=True)
+    return pickle.loads(open(out, "rb").read())
+
+
+def enrich(rng, x, kind, ctx, np, gen):
+    """values the shared generators leave out: special partial charges / weights, real-valued bond orders,
+    text with outer white space, multiplicities outside 1..3"""
+    special = gen.SPECIAL_FLOATS + [float("nan"), float("inf"), float("-inf")]
+    if x.n_atoms and rng.random() < 0.2:
+        q = np.array(x.atomic_charges, dtype=float)
+        if q.size:
+            for _ in range(rng.randrange(1, 4)):
+                q[tuple(rng.randrange(s) for s in q.shape)] = rng.choice(special)
+            x.atomic_charges = q
+            ctx.count("source.special-partial-charges")
+    if kind == "ens" and x.n_conformers and rng.random() < 0.3:
+        w = np.array(x.weights, dtype=float)
+        for _ in range(rng.randrange(1, 3)):
+            w[rng.randrange(len(w))] = rng.choice(special)
+        x.weights = w
+        ctx.count("source.special-conformer-weights")
+    if x.n_bonds and rng.random() < 0.6:
+        for b in x.bonds:
+            if rng.random() < 0.7:
+                b.f_order = rng.choice([rng.uniform(0, 3), rng.uniform(0, 3), 4 / 3, 2 / 3, 1e-3, 0.1, 1.87654321])
+        ctx.count("source.real-valued-fractional-bond-order")
+    if rng.random() < 0.3:
+        what = rng.randrange(4)
+        if what == 0 or not x.n_atoms:
+            x.name = rng.choice(WS_TEXT)
+        elif what == 1:
+            for a in rng.sample(list(x.atoms), rng.randrange(1, min(3, x.n_atoms) + 1)):
+                a.label = rng.choice(WS_TEXT)
+                if rng.random() < 0.3:
+                    a.attrib[rng.choice(WS_TEXT)] = rng.choice(WS_TEXT)
+        elif what == 2 and x.n_bonds:
+            for b in rng.sample(list(x.bonds), rng.randrange(1, min(3, x.n_bonds) + 1)):
+                b.label = rng.choice(WS_TEXT)
+        else:
+            x.name = rng.choice(WS_TEXT)
+            x.attrib[rng.choice(WS_TEXT)] = [rng.choice(WS_TEXT), {rng.choice(WS_TEXT): rng.choice(WS_TEXT)}]
+        ctx.count("source.text-with-outer-white-space")
+    if rng.random() < 0.08:
+        x.mult = rng.choice([0, 0, 4, 5, 7])
+        ctx.count("source.multiplicity-outside-1-3")
+
+
+def large_attribute(rng, np):
+    """an attribute whose record part needs a 32-bit length field in the file format (>= 64 Ki bytes / elements)"""
+    v = rng.randrange(4)
+    if v == 0:
+        return np.arange(rng.randrange(17000, 24000), dtype="f4") * 0.5
+    if v == 1:
+        return rng.randbytes(rng.randrange(66000, 90000))
+    if v == 2:
+        return list(range(rng.randrange(66000, 70000)))
+    return {i: i % 7 for i in range(rng.randrange(66000, 70000))}
+
+
+def large_object(rng, nprng, kind, ctx, np, gen, ml):
+    """an object whose coordinate block reaches 64 KiB (ordinary for molli: 100 conformers x 60 atoms)"""
+    if kind == "mol":
+        # (few bonds: connect() and Atom.idx are linear in the number of atoms)
+        n = rng.randrange(5500, 6100)
+        x = ml.Molecule([gen.atom(rng, rich=True) for _ in range(n)], name="large", charge=rng.choice([0, -1, 2]),
+                        mult=rng.choice([1, 2]), coords=nprng.normal(scale=20.0, size=(n, 3)))
+        x.attrib = gen.attrib(rng)
+        for _ in range(rng.randrange(0, 12)):
+            i, k = rng.sample(range(n), 2)
+            if x.lookup_bond(i, k) is None:
+                x.connect(i, k, label=rng.choice([None, "b"]), btype=rng.choice(gen.BTYPES), f_order=rng.uniform(0, 3))
+        x.atomic_charges = nprng.uniform(-1, 1, size=n)
+    else:
+        n = rng.randrange(48, 72)
+        nc = -(-5600 // n) + rng.randrange(0, 16)
+        base = gen.molecule(rng, n_atoms=n, max_atoms=n, rich=True, p_dense=0.0)
+        x = ml.ConformerEnsemble(base, n_conformers=nc)
+        x.coords = nprng.normal(scale=5.0, size=(nc, n, 3))
+        x.atomic_charges = nprng.uniform(-1, 1, size=(nc, n))
+        x.weights = nprng.random(nc)
+    ctx.count(f"source.large-numeric-block.{kind}")
+    return x
+
+
+def modify_source(rng, x, kind, r, np, ml):
+    """the owner of a stored object goes on working with it: rename, move, retype, extend"""
+    x.name = f"{x.name}-r{r}"
+    x.attrib["stored-again"] = r
+    x.charge = (x.charge or 0) + 1
+    if x.n_atoms:
+        i = rng.randrange(x.n_atoms)
+        x.atoms[i].label = f"r{r}"
+        x.atoms[i].formal_charge = (x.atoms[i].formal_charge or 0) + 1
+        c = np.array(x.coords, dtype=float)
+        if c.size:
+            c[..., i, :] = [rng.gauss(0, 5) for _ in range(3)]
+            x.coords = c
+        q = np.array(x.atomic_charges, dtype=float)
+        if q.size:
+            q[..., i] = rng.uniform(-2, 2)
+            x.atomic_charges = q
+    if x.n_bonds and rng.random() < 0.5:
+        b = x.bonds[rng.randrange(x.n_bonds)]
+        b.f_order = rng.uniform(0, 3)
+        b.label = f"rb{r}"
+    if kind == "mol" and rng.random() < 0.4:
+        x.add_atom(ml.Atom(rng.choice(["C", "N", "O", "Cl"]), label=f"added{r}"), [rng.gauss(0, 5) for _ in range(3)])
+        if x.n_atoms >= 2 and rng.random() < 0.7:
+            x.connect(0, x.n_atoms - 1)
+    if kind == "ens" and x.n_conformers:
+        w = np.array(x.weights, dtype=float)
+        w[rng.randrange(len(w))] = rng.random()
+        x.weights = w
+
+
 def run_chunk(spec, ctx):
+    if spec.get("scenario") == "re-created-path":
+        return run_recreated_path(spec, ctx)
+    return run_main(spec, ctx)
+
+
+# ------------------------------------------------------------------------------------------------------------------
+def run_main(spec, ctx):
     import numpy as np
     import molli as ml
     from vmon import gen
     from vmon.snap import snap, diff, snap_hash, brief, mech_field
 
     kind, version = spec["kind"], spec["version"]
+    chunk = spec["chunk"]
+    orc = Oracle(ctx, kind)
     Lib = ml.MoleculeLibrary if kind == "mol" else ml.ConformerLibrary
     ext = ".mlib" if kind == "mol" else ".clib"
     path = ctx.tmp / f"lib{ext}"
+    opath = ctx.tmp / f"other{ext}"
+    oversion = 1 if version == 2 else 2
+    otag = f"v{oversion}.{kind}"
     other_lib = None
-    if spec["chunk"] % 5 == 3:
+    other_objs = {}           # key -> snapshot at store time (objects stored in the library of the other version)
+    other_mode = {3: "before", 1: "after"}.get(chunk % 5)
+
+    def make_other():
+        if oversion == 1:
+            make_v1_file(opath)
+            return Lib(opath, readonly=False)
+        return Lib(opath, readonly=False, overwrite=True)
+
+    def other_store(label, n=1):
+        """store n generated objects into the library of the other format version (own writing session)"""
+        with other_lib.writing():
+            for i in range(n):
+                orng = ctx.rng(chunk, "other-library", label, i)
+                ox = gen.molecule(orng, rich=True) if kind == "mol" else gen.ensemble(orng, rich=True)
+                enrich(orng, ox, kind, ctx, np, gen)
+                okey = f"o-{label}-{i}"
+                other_objs[okey] = snap(ox)
+                other_lib[okey] = ox
+
+    if other_mode == "before":
         # a library of the OTHER format version was opened (and used) earlier in this process and is still around:
         # a conversion of legacy files to the current format, or the reverse; each handle keeps its own format
-        opath = ctx.tmp / f"other{ext}"
-        if version == 2:
-            make_v1_file(opath)
-            other_lib = Lib(opath, readonly=False)
-        else:
-            other_lib = Lib(opath, readonly=False, overwrite=True)
-        orng = ctx.rng(spec["chunk"], "other-library")
-        ox = gen.molecule(orng, rich=True) if kind == "mol" else gen.ensemble(orng, rich=True)
-        with other_lib.writing():
-            other_lib["o"] = ox
+        other_lib = make_other()
+        other_store("first")
         with other_lib.reading():
-            _ = other_lib["o"]
+            _ = other_lib["o-first-0"]
         ctx.count("library.other-format-version-used-earlier-in-process")
     if version == 1:
         make_v1_file(path)
         lib = Lib(path, readonly=False, bufsize=spec["bufsize"])
-    elif spec["chunk"] % 5 == 4:
+    elif chunk % 5 == 4:
         # a current-format library created by overwriting a legacy (v1) file of the same name
         make_v1_file(path)
         ctx.count("library.created-over-a-legacy-file")
         lib = Lib(path, readonly=False, overwrite=True, bufsize=spec["bufsize"], comment="c01 é")
     else:
         lib = Lib(path, readonly=False, overwrite=True, bufsize=spec["bufsize"], comment="c01 é")
+    if other_mode == "after":
+        # the library of the other format version is constructed AFTER the library under test, and both are used
+        # alternately from here on (the conversion loop `with old.reading(), new.writing()`)
+        other_lib = make_other()
+        other_store("first")
+        ctx.count("library.other-format-version-constructed-later-used-alternately")
 
     # ---- generate
     objs = {}
     keys = []
     lent = []
+    again = {}                 # key -> "same" | "later" | "both": the source object is modified and stored again
     for j in range(spec["n"]):
-        case = (spec["chunk"], j)
+        case = (chunk, j)
         rng = ctx.rng(*case)
-        if kind == "mol":
+        if j == 0 and chunk % 8 in (1, 7):
+            x = large_object(rng, ctx.nprng(*case), kind, ctx, np, gen, ml)
+        elif kind == "mol":
             x = gen.molecule(rng, rich=True)
         else:
             x = gen.ensemble(rng, rich=True)
-        key = rng.choice([f"k{j}", f"key with space {j}", f"ü{j}", f"{j}" + "x" * 200, f"{j}/slash"])
+        enrich(rng, x, kind, ctx, np, gen)
+        kform = rng.randrange(10)
+        if j == 7:
+            key = ""
+            ctx.count("key.empty")
+        elif kform < 5:
+            key = [f"k{j}", f"key with space {j}", f"ü{j}", f"{j}" + "x" * 200, f"{j}/slash"][kform]
+        else:
+            key = [f" lead {j}", f"trail {j} ", f"line {j}\n", f"\t{j}\t", f"\n {j} \r\n"][kform - 5]
+            ctx.count("key.leading-or-trailing-white-space")
         # a few objects carry a large record: a long text attribute (a program log kept with the molecule), a long label
         if rng.random() < 0.04:
             x.attrib["log"] = "line of a program log\n" * rng.choice([3000, 3200, 4000])      # 66-88 kB
             ctx.count("source.large-text-attribute")
             if x.n_atoms and rng.random() < 0.5:
                 x.atoms[0].label = "L" * 70000
+        if rng.random() < 0.04:
+            x.attrib["block"] = large_attribute(rng, np)
+            ctx.count("source.large-attribute-block")
         # some objects have lent (some of) their atoms to another structure before they are stored: atoms given to a
         # constructor without copy_atoms are adopted by it (their parent link is re-pointed), the object itself is unchanged
-        if x.n_atoms >= 2 and rng.random() < 0.2:
+        if 2 <= x.n_atoms <= 100 and rng.random() < 0.2:
             picked = rng.sample(list(x.atoms), rng.randrange(1, x.n_atoms + 1))
             helper = ml.Promolecule(picked)
             ctx.count("source.atoms-lent-to-another-structure")
@@ -137,78 +452,136 @@ def run_chunk(spec, ctx):
                 lent.append(helper)          # the other structure stays alive ...
             else:
                 del helper                   # ... or is dropped again
+        if x.n_atoms <= 100 and rng.random() < 0.3:
+            again[key] = rng.choice(["same", "later", "both"])
         objs[key] = (case, x)
         keys.append(key)
 
     tag = f"v{version}.{kind}"
     before = {}
+    kinds0 = {}
 
     def j_of(key):
         return objs[key][0][1]
 
-    # ---- write in 1..3 sessions
-    nsess = 1 + spec["chunk"] % 3
-    for s in range(nsess):
+    def store(lib_, key, where="library"):
+        case, x = objs[key]
+        before[key] = snap(x)
+        kinds0[key] = orc.kinds(x)
+        lib_[key] = x
+        after = snap(x)
+        ctx.count("source-unchanged")
+        d = diff(before[key], after)
+        if d:
+            orc.report(f"store-alters-source:{tag}:{mech_field(d[0][0])}", case=case, diff=d[:4])
+
+    n_again = {}
+
+    def store_again(key0):
+        """the object stored under key0 has been modified since: it is stored under a new key"""
+        case0, x = objs[key0]
+        r = n_again[key0] = n_again.get(key0, 0) + 1
+        case = (chunk, case0[1], "stored-again", r)
+        modify_source(ctx.rng(*case), x, kind, r, np, ml)
+        key = f"{key0}#{r}"
+        objs[key] = (case, x)
+        keys.append(key)
+        ctx.count("source.stored-again-after-modification")
+        store(lib, key)
+
+    # ---- write in 1..3 sessions (+ one later session for objects that are stored again)
+    nsess = 1 + chunk % 3
+    first_keys = list(keys)
+    later = {s: [] for s in range(nsess + 1)}
+    for s in range(nsess + 1):
+        if other_mode == "after" and s > 0:
+            other_store(f"between-{s}")
         with lib.writing():
-            for key in keys[s::nsess]:
-                case, x = objs[key]
-                if not ctx.want(case):
-                    continue
-                before[key] = snap(x)
-                lib[key] = x
-                after = snap(x)
-                ctx.count("source-unchanged")
-                d = diff(before[key], after)
-                if d:
-                    ctx.violation(f"store-alters-source:{tag}:{mech_field(d[0][0])}", case=case, diff=d[:4])
+            if other_mode == "after":
+                sess = other_lib.reading()
+                sess.__enter__()
+            try:
+                for key in (first_keys[s::nsess] if s < nsess else []):
+                    case, x = objs[key]
+                    if not selected(ctx, case):
+                        continue
+                    store(lib, key)
+                    mode = again.get(key)
+                    if mode in ("same", "both"):
+                        store_again(key)
+                    if mode in ("later", "both"):
+                        later[ctx.rng(*case, "later-session").randrange(s + 1, nsess + 1)].append(key)
+                for key in later[s]:
+                    store_again(key)
+                if other_mode == "after":
+                    _ = other_lib["o-first-0"]
+            finally:
+                if other_mode == "after":
+                    sess.__exit__(None, None, None)
 
     def check(key, y, route):
         case, x = objs[key]
         sx = before[key]
-        sy = snap(y, parents=True)
-        par = sy.pop("parents")
-        if version == 1:
-            a, b = restrict_v1(sx), restrict_v1(sy)
-        else:
-            a, b = sx, sy
-        d = diff(a, b, rtol=RTOL, atol=ATOL)
+        sy = snap(y, parents=y.n_atoms <= 200)        # (Atom.idx is linear in the number of atoms)
+        par = sy.pop("parents", None)
+        d = orc.compare(sx, sy, version, tag, case, route)
         ctx.count(f"roundtrip.{tag}")
         ctx.count(f"read.{route}")
         if d:
             field = mech_field(d[0][0])
-            ctx.violation(f"roundtrip-differs:{tag}:{field}", case=case, route=route, diff=d[:5], obj=brief(x))
+            orc.report(f"roundtrip-differs:{tag}:{field}", case=case, route=route, diff=d[:5], obj=brief(x))
         if par:
-            ctx.violation(f"readback-parent-or-index-wrong:{tag}:{par[0][0]}", case=case, route=route, bad=par[:4])
+            orc.report(f"readback-parent-or-index-wrong:{tag}:{par[0][0]}", case=case, route=route, bad=par[:4])
+        orc.kinds_check(kinds0[key], y, tag, case, route)
         return y
 
     def reread_after_mutation(lib_, key, y, route):
         """what is read back is what is STORED: editing a returned object must not change the next read"""
         case, x = objs[key]
         try:
-            y.name = "edited-after-read"
-            y.charge = (y.charge or 0) + 7
-            y.attrib["edited"] = True
-            if y.n_atoms:
-                y.atoms[0].label = "EDITED"
-                y.atoms[-1].formal_charge = 9
-                y.coords[...] = 12345.0
-                y.atomic_charges[...] = -9.0
-            if kind == "ens" and y.n_conformers:
-                y.weights[...] = 77.0
-        except Exception:  # noqa
+            orc.edit(y)
+        except Exception as e:  # noqa
+            # the stored object could be edited (it was built by the same calls), what is read back must be, too
+            orc.report(f"readback-cannot-be-edited:{tag}:{type(e).__name__}", case=case, route=route, err=repr(e)[:200])
             return
         try:
             y2 = lib_[key]
         except Exception as e:  # noqa
-            ctx.violation(f"read-raises:{tag}:second-read:{type(e).__name__}", case=case, route=route)
+            orc.report(f"read-raises:{tag}:second-read:{type(e).__name__}", case=case, route=route)
             return
         ctx.count("read.again-after-editing-previous-result")
-        sy = snap(y2)
-        a, b = (restrict_v1(before[key]), restrict_v1(sy)) if version == 1 else (before[key], sy)
-        d = diff(a, b, rtol=RTOL, atol=ATOL)
+        d = orc.compare(before[key], snap(y2), version, tag, case, route)
         if d:
-            ctx.violation(f"second-read-differs-from-stored:{tag}:{d[0][0].split('[')[0].strip('.')}", case=case, route=route,
-                          diff=d[:4])
+            orc.report(f"second-read-differs-from-stored:{tag}:{d[0][0].split('[')[0].strip('.')}", case=case,
+                       route=route, diff=d[:4])
+
+    # ---- read back through items(): every pair is (key, the object stored under that key)
+    with lib.reading():
+        seen = set()
+        try:
+            for key, y in lib.items():
+                ctx.count("read.items")
+                if key in seen:
+                    orc.report(f"items-yields-key-twice:{tag}", key=key)
+                seen.add(key)
+                if key not in before:
+                    if ctx.only is None:
+                        orc.report(f"items-yields-unknown-key:{tag}", key=key)
+                    continue
+                d = orc.compare(before[key], snap(y), version, tag, objs[key][0], "items")
+                if d:
+                    orc.report(f"items-pair-differs:{tag}:{mech_field(d[0][0])}", case=objs[key][0], diff=d[:4],
+                               obj=brief(objs[key][1]))
+        except Exception as e:  # noqa
+            orc.report(f"read-raises:{tag}:items:{type(e).__name__}:{_where(e)}", err=repr(e)[:300])
+        else:
+            if ctx.only is None and seen != set(before):
+                orc.report(f"items-key-set-differs:{tag}", missing=sorted(set(before) - seen)[:5])
+        if ctx.only is None:
+            n_iter = sorted(iter(lib))
+            if n_iter != sorted(before) or len(lib) != len(before) or not all(k in lib for k in before):
+                orc.report(f"iteration-or-length-or-membership-differs-from-keys-stored:{tag}",
+                           n_iter=len(n_iter), n_len=len(lib), n_stored=len(before))
 
     # ---- a record that is not a molecule at all sits in the same file (written through the generic Collection API);
     # reading it must fail without disturbing any later read in this process
@@ -216,7 +589,7 @@ def run_chunk(spec, ctx):
         from molli.storage import Collection, UkvCollectionBackend
         raw = Collection(path, UkvCollectionBackend, readonly=False)
         with raw.writing():
-            raw["~garbage~"] = bytes([0x9A, 0x01, 0xC4])        # truncated msgpack array
+            raw[GARBAGE] = bytes([0x9A, 0x01, 0xC4])        # truncated msgpack array
         before_garbage = True
     else:
         before_garbage = False
@@ -225,11 +598,11 @@ def run_chunk(spec, ctx):
     with lib.reading():
         if before_garbage:
             try:
-                lib["~garbage~"]
-                ctx.violation(f"garbage-record-decoded-as-an-object:{tag}")
+                lib[GARBAGE]
+                orc.report(f"garbage-record-decoded-as-an-object:{tag}")
             except Exception:  # noqa
                 ctx.count("read.failed-decode-before-good-reads")
-        listed = set(lib.keys()) - {"~garbage~"}
+        listed = set(lib.keys()) - {GARBAGE}
         for key in keys:
             case, x = objs[key]
             if key not in before:
@@ -238,27 +611,27 @@ def run_chunk(spec, ctx):
             ctx.case(case, dkey=snap_hash(s), nontrivial=nondefault(s),
                      sample={"key": key, "kind": tag, "obj": brief(x)})
             if key not in listed:
-                ctx.violation(f"key-not-listed:{tag}", case=case, key=key)
+                orc.report(f"key-not-listed:{tag}", case=case, key=key)
                 continue
             try:
                 y = lib[key]
             except Exception as e:  # noqa
-                ctx.violation(f"read-raises:{tag}:{type(e).__name__}:{_where(e)}", case=case, route="same-handle",
-                              err=repr(e)[:300], obj=brief(x))
+                orc.report(f"read-raises:{tag}:{type(e).__name__}:{_where(e)}", case=case, route="same-handle",
+                           err=repr(e)[:300], obj=brief(x))
                 continue
             y = check(key, y, "same-handle")
             if j_of(key) % 2 == 0:
                 reread_after_mutation(lib, key, y, "same-handle")
         if ctx.only is None and listed != set(before):
-            ctx.violation(f"key-set-differs:{tag}", extra=sorted(listed - set(before))[:5],
-                          missing=sorted(set(before) - listed)[:5])
+            orc.report(f"key-set-differs:{tag}", extra=sorted(listed - set(before))[:5],
+                       missing=sorted(set(before) - listed)[:5])
 
     # ---- read back: fresh read-only library object, reversed order
     lib2 = Lib(path, readonly=True)
     with lib2.reading():
         if before_garbage:
             try:
-                lib2["~garbage~"]
+                lib2[GARBAGE]
             except Exception:  # noqa
                 pass
         for key in reversed(keys):
@@ -268,42 +641,254 @@ def run_chunk(spec, ctx):
             try:
                 y = lib2[key]
             except Exception as e:  # noqa
-                ctx.violation(f"read-raises:{tag}:{type(e).__name__}:{_where(e)}", case=case, route="fresh-handle",
-                              err=repr(e)[:300])
+                orc.report(f"read-raises:{tag}:{type(e).__name__}:{_where(e)}", case=case, route="fresh-handle",
+                           err=repr(e)[:300])
                 continue
             y = check(key, y, "fresh-handle")
             if j_of(key) % 2 == 1:
                 reread_after_mutation(lib2, key, y, "fresh-handle")
 
-    # ---- read back in a fresh process (thorough): the decoded objects come back as pickles of snapshots
+    # ---- second hop: what is read back is stored again, into a second library of the same format (the record-by-record
+    # copy loop); the source objects that were stored several times go there once more, in their present state
+    path2 = ctx.tmp / f"second{ext}"
+    if version == 1:
+        make_v1_file(path2)
+        second = Lib(path2, readonly=False, bufsize=spec["bufsize"])
+    else:
+        second = Lib(path2, readonly=False, overwrite=True, bufsize=spec["bufsize"])
+    expected2 = {}
+    case2 = {}
+    with lib2.reading(), second.writing():
+        for key in keys:
+            if key not in before:
+                continue
+            try:
+                second[key] = lib2[key]
+            except Exception as e:  # noqa
+                orc.report(f"second-hop-store-raises:{tag}:{type(e).__name__}:{_where(e)}", case=objs[key][0],
+                           err=repr(e)[:300])
+                continue
+            expected2[key] = before[key]
+            case2[key] = objs[key][0]
+        for key0 in n_again:
+            case0, x = objs[key0]
+            k2 = f"source-again:{key0}"
+            expected2[k2] = snap(x)
+            case2[k2] = (chunk, case0[1], "stored-again-in-second-library")
+            ctx.count("source.stored-again-in-second-library")
+            second[k2] = x
+    second2 = Lib(path2, readonly=True)
+    with second2.reading():
+        listed2 = set(second2.keys())
+        if listed2 != set(expected2):
+            orc.report(f"key-set-differs:{tag}:second-library", extra=sorted(listed2 - set(expected2))[:5],
+                       missing=sorted(set(expected2) - listed2)[:5])
+        for key, sx in expected2.items():
+            if key not in listed2:
+                continue
+            try:
+                y = second2[key]
+            except Exception as e:  # noqa
+                orc.report(f"read-raises:{tag}:second-hop:{type(e).__name__}:{_where(e)}", case=case2[key],
+                           err=repr(e)[:300])
+                continue
+            ctx.count("read.second-hop")
+            d = orc.compare(sx, snap(y), version, tag, case2[key], "second-hop")
+            if d:
+                orc.report(f"second-hop-differs:{tag}:{mech_field(d[0][0])}", case=case2[key], diff=d[:4])
+        try:
+            orc.match_values(expected2, second2.values(), version, tag, "second-library")
+        except Exception as e:  # noqa
+            orc.report(f"read-raises:{tag}:values:{type(e).__name__}:{_where(e)}", err=repr(e)[:300])
+
+    # ---- the library of the other format version: conversion hop (records read from the library under test are stored
+    # there), then everything stored there is read back through a fresh handle
+    if other_lib is not None:
+        conv = {}
+        with lib2.reading(), other_lib.writing():
+            for key in [k for k in first_keys if k in before][:12]:
+                try:
+                    other_lib[f"converted:{key}"] = lib2[key]
+                except Exception as e:  # noqa
+                    orc.report(f"conversion-store-raises:{tag}-to-{otag}:{type(e).__name__}:{_where(e)}",
+                               case=objs[key][0], err=repr(e)[:300])
+                    continue
+                conv[f"converted:{key}"] = key
+        other2 = Lib(opath, readonly=True)
+        with other2.reading():
+            olisted = set(other2.keys())
+            if ctx.only is None and olisted != set(other_objs) | set(conv):
+                orc.report(f"key-set-differs:{otag}:other-library", extra=sorted(olisted - set(other_objs) - set(conv))[:5],
+                           missing=sorted((set(other_objs) | set(conv)) - olisted)[:5])
+            for okey, sx in other_objs.items():
+                try:
+                    y = other2[okey]
+                except Exception as e:  # noqa
+                    orc.report(f"read-raises:{otag}:{type(e).__name__}:{_where(e)}", route="other-library",
+                               err=repr(e)[:300])
+                    continue
+                ctx.count(f"roundtrip.{otag}")
+                d = orc.compare(sx, snap(y), oversion, otag, None, "other-library")
+                if d:
+                    orc.report(f"roundtrip-differs:{otag}:{mech_field(d[0][0])}", route="other-library", diff=d[:5])
+            for ckey, key in conv.items():
+                try:
+                    y = other2[ckey]
+                except Exception as e:  # noqa
+                    orc.report(f"read-raises:{otag}:conversion-hop:{type(e).__name__}:{_where(e)}", case=objs[key][0],
+                               err=repr(e)[:300])
+                    continue
+                ctx.count("read.conversion-hop")
+                # one of the two formats is the legacy one: only its schema survives a conversion
+                d = orc.compare(before[key], snap(y), 1, otag, objs[key][0], "conversion-hop")
+                if d:
+                    orc.report(f"conversion-hop-differs:{tag}-to-{otag}:{mech_field(d[0][0])}", case=objs[key][0],
+                               diff=d[:4])
+
+    # ---- read back in a fresh process: the decoded objects come back as pickles of snapshots
     if spec.get("fresh_process") and ctx.only is None:
-        out = ctx.tmp / "fresh.pkl"
-        code = (
-            "import sys,pickle; sys.path[:0]=%r; import molli as ml; from vmon.snap import snap\n"
-            "lib = ml.%s(%r, readonly=True)\n"
-            "res = {}\n"
-            "with lib.reading():\n"
-            "    for k in lib.keys():\n"
-            "        try: res[k] = snap(lib[k], parents=True)\n"
-            "        except Exception as e: res[k] = repr(e)\n"
-            "pickle.dump(res, open(%r,'wb'))\n" % (sys.path[:3], Lib.__name__, str(path), str(out)))
-        subprocess.run([sys.executable, "-c", code], timeout=300, check=True)
-        res = pickle.loads(out.read_bytes())
+        res = fresh_process_snaps(Lib.__name__, path, ctx.tmp / "fresh.pkl")
         for key, sy in res.items():
             if key not in before:
                 continue
             case, x = objs[key]
             ctx.count("read.fresh-process")
             if isinstance(sy, str):
-                ctx.violation(f"read-raises:{tag}:fresh-process", case=case, err=sy[:300])
+                orc.report(f"read-raises:{tag}:fresh-process", case=case, err=sy[:300])
                 continue
-            par = sy.pop("parents")
-            a, b = (restrict_v1(before[key]), restrict_v1(sy)) if version == 1 else (before[key], sy)
-            d = diff(a, b, rtol=RTOL, atol=ATOL)
+            par = sy.pop("parents", None)
+            d = orc.compare(before[key], sy, version, tag, case, "fresh-process")
             if d:
-                ctx.violation(f"roundtrip-differs:{tag}:fresh-process:{mech_field(d[0][0])}", case=case, diff=d[:5])
+                orc.report(f"roundtrip-differs:{tag}:fresh-process:{mech_field(d[0][0])}", case=case, diff=d[:5])
             if par:
-                ctx.violation(f"readback-parent-or-index-wrong:{tag}:{par[0][0]}", case=case, route="fresh-process")
+                orc.report(f"readback-parent-or-index-wrong:{tag}:{par[0][0]}", case=case, route="fresh-process")
+        if set(res) - {GARBAGE} != set(before):
+            orc.report(f"key-set-differs:{tag}:fresh-process", missing=sorted(set(before) - set(res))[:5])
+
+
+# ------------------------------------------------------------------------------------------------------------------
+def run_recreated_path(spec, ctx):
+    """A library file is used through a library object, then created anew in the OTHER format under the same path
+    (conversion in place: overwrite=True over a legacy file; a legacy file copied over a current one), then used through
+    new handles -- and through the handle that existed before."""
+    import numpy as np
+    import molli as ml
+    from vmon import gen
+    from vmon.snap import snap, brief, mech_field
+
+    kind, direction, chunk = spec["kind"], spec["direction"], spec["chunk"]
+    name = "path-re-created-in-other-format"
+    case = (chunk, name)
+    if not selected(ctx, case):
+        return
+    orc = Oracle(ctx, kind)
+    Lib = ml.MoleculeLibrary if kind == "mol" else ml.ConformerLibrary
+    ext = ".mlib" if kind == "mol" else ".clib"
+    p = ctx.tmp / f"place{ext}"
+    v_old, v_new = (1, 2) if direction == "v1-to-v2" else (2, 1)
+    bs = spec["bufsize"]
+
+    def objects(label, n):
+        out = {}
+        for i in range(n):
+            rng = ctx.rng(chunk, name, label, i)
+            x = gen.molecule(rng, rich=True) if kind == "mol" else gen.ensemble(rng, rich=True)
+            enrich(rng, x, kind, ctx, np, gen)
+            x.attrib["group"] = label                    # something only the current format keeps
+            if x.n_atoms:
+                x.atoms[0].formal_charge = 2
+            out[f"{label}{i}"] = x
+        return out
+
+    def write(lib, objs):
+        snaps = {}
+        with lib.writing():
+            for k, x in objs.items():
+                snaps[k] = snap(x)
+                lib[k] = x
+        return snaps
+
+    def verify(lib, snaps, version, route, keyfmt, must_list=None):
+        """every stored object reads back through `lib`; keyfmt(what) gives the violation key"""
+        tag = f"v{version}.{kind}"
+        try:
+            with lib.reading():
+                if must_list is not None and set(lib.keys()) != set(must_list):
+                    orc.report(keyfmt("key-set-differs"), case=case, route=route, listed=sorted(lib.keys())[:8],
+                               stored=sorted(must_list)[:8])
+                for k, sx in snaps.items():
+                    try:
+                        y = lib[k]
+                    except Exception as e:  # noqa
+                        orc.report(keyfmt(None), case=case, route=route, err=repr(e)[:300], where=_where(e),
+                                   raised=type(e).__name__)
+                        continue
+                    ctx.count(f"roundtrip.{tag}")
+                    d = orc.compare(sx, snap(y, parents=False), version, tag, case, route)
+                    if d:
+                        orc.report(keyfmt(mech_field(d[0][0])), case=case, route=route, diff=d[:4])
+        except Exception as e:  # noqa
+            orc.report(keyfmt(None), case=case, route=route, err=repr(e)[:300], where=_where(e), raised=type(e).__name__)
+
+    def plain_key(version, route):
+        tag = f"v{version}.{kind}"
+        return lambda f: (f"read-raises:{tag}:{route}" if f is None else f"roundtrip-differs:{tag}:{route}:{f}")
+
+    # 1. the file in its first format, used through a library object
+    if v_old == 1:
+        make_v1_file(p)
+        first = Lib(p, readonly=False, bufsize=bs)
+    else:
+        first = Lib(p, readonly=False, overwrite=True, bufsize=bs)
+    A = write(first, objects("A", 4))
+    verify(first, A, v_old, "before-re-creation", plain_key(v_old, "before-re-creation"), must_list=A)
+
+    # 2. created anew in the other format under the same path
+    if v_new == 2:
+        newh = Lib(p, readonly=False, overwrite=True, bufsize=bs)
+        B0 = {}
+    else:
+        # a legacy library, filled somewhere else, is copied over the file
+        q = ctx.tmp / f"legacy-source{ext}"
+        make_v1_file(q)
+        B0 = write(Lib(q, readonly=False), objects("L", 3))
+        os.replace(q, p)
+        newh = Lib(p, readonly=False, bufsize=bs)
+    B = dict(B0)
+    B.update(write(newh, objects("B", 4)))
+    ctx.count(f"library.path-re-created-in-other-format.{direction}")
+    ctx.case(case, dkey=(kind, direction, chunk), nontrivial=True,
+             sample={"scenario": name, "kind": kind, "direction": direction, "stored": sorted(B)})
+
+    # 3. read through the handle that wrote, and through handles constructed afterwards
+    route = f"path-re-created-{direction}"
+    verify(newh, B, v_new, route, plain_key(v_new, route), must_list=B)
+    verify(Lib(p), B, v_new, route + ":later-handle", plain_key(v_new, route + ":later-handle"), must_list=B)
+    if v_new == 1 and ctx.only is None or ctx.tier == "thorough":
+        res = fresh_process_snaps(Lib.__name__, p, ctx.tmp / "fresh.pkl")
+        tag = f"v{v_new}.{kind}"
+        for k, sx in B.items():
+            sy = res.get(k)
+            ctx.count("read.fresh-process")
+            if not isinstance(sy, dict):
+                orc.report(f"read-raises:{tag}:{route}:fresh-process", case=case, err=str(sy)[:300])
+                continue
+            sy.pop("parents", None)
+            d = orc.compare(sx, sy, v_new, tag, case, route)
+            if d:
+                orc.report(f"roundtrip-differs:{tag}:{route}:fresh-process:{mech_field(d[0][0])}", case=case, diff=d[:4])
+
+    # 4. the handle that existed before the re-creation is used again: what it stores now must read back through any
+    # handle, and it must read what the others stored
+    ctx.count("library.old-handle-used-after-re-creation")
+    known = lambda w: (lambda f: f"old-handle-after-re-creation:{kind}:{direction}:{w}")   # noqa: E731
+    try:
+        C = write(first, objects("C", 2))
+    except Exception as e:  # noqa
+        orc.report(f"old-handle-after-re-creation:{kind}:{direction}:store-raises", case=case, err=repr(e)[:300])
+        return
+    verify(Lib(p), C, v_new, "old-handle-write", known("record-written-through-it-unreadable"))
+    verify(first, B, v_new, "old-handle-read", known("cannot-read-new-record"))
 
 
 def _where(e):
@@ -318,7 +903,10 @@ def _where(e):
 
 TECHNIQUE = "runtime monitoring: round-trip oracle on generated objects through real library sessions (deep snapshot diff)"
 LEVEL_TEXT = ("Held on the executions produced: thousands of generated molecules/ensembles per run are stored in and read back "
-              "from real .mlib/.clib files (v2 and v1, four buffer sizes, same handle / fresh handle / fresh process) and "
-              "compared field by field by an oracle independent of the codecs. Not a proof: reach is the generator's.")
+              "from real .mlib/.clib files (v2 and v1, four buffer sizes; lib[key], items(), values(); same handle / fresh "
+              "handle / second library / fresh process; objects stored once or modified and stored again; libraries of the "
+              "other format used before, alternately, and under the same path) and compared field by field by an oracle "
+              "independent of the codecs. Not a proof: reach is the generator's.")
 LEVEL_NOTE = ("Trusted: the snapshot/diff code in vmon/snap.py, msgpack, numpy. Floats compared at float32 precision; "
-              "v1 restricted to its schema.")
+              "v1 restricted to its schema. Mechanisms listed as open in known_findings.json are reported as KNOWN-FINDING lines "
+              "until the library is repaired (tools/findings/C01-ext.json).")
